@@ -19,10 +19,15 @@ variable {K : Type} [Field K] [LinearOrder K] [IsStrictOrderedRing K]
     meat within slaughter (month by month without storage; in total and under the monthly cap
     with storage); SCP and sugar within monthly output; seaweed ledger and bounds; feed/biofuel
     equal to the charge (human rounds) or within ceiling and never rising (feed round); crops
-    (and stored food where storage between years is allowed) fully used by the last month. -/
+    (and stored food where storage between years is allowed) fully used by the last month.
+    `hwM` (meat waste at most 100 %) is needed for ONE clause only, `meat-monthly-cap`: since the
+    repair of D10 the code caps the *cumulative* meat eaten (`meat-cumulative`, proved without any
+    hypothesis); the per-month cap follows only when earlier months eat a non-negative grossed-up
+    amount.  With `wMeat = 200` (gross-up factor −1), `maxCulled = [−5, −5]`, eating 10 then 0 is
+    feasible (cumulative use −10 ≤ −5) although month 1 uses 0 > −5. -/
 theorem feasible_is_physical (i : Inp K) (kind : Kind) (x : Var → K) (hN : 2 ≤ i.nmonths)
-    (h : Feasible (buildLP i kind) x) : ∀ e ∈ physCore i kind x, e.value ≤ 0 :=
-  Proofs.LP.feasible_is_physical i kind x hN h
+    (hwM : i.wMeat ≤ 100) (h : Feasible (buildLP i kind) x) : ∀ e ∈ physCore i kind x, e.value ≤ 0 :=
+  Proofs.LP.feasible_is_physical i kind x hN hwM h
 
 /-- adding rows (the `0.99995·z*` floors and the secondary objectives) only shrinks the feasible set -/
 theorem extra_rows_preserve (rows extra : List (Row K)) (x : Var → K)
@@ -40,29 +45,36 @@ theorem meat_cumulative_without_storage (i : Inp K) (kind : Kind) (x : Var → K
     cum (meatUse i x) m ≤ cum (at' i.slaughtered) m :=
   Proofs.LP.meat_cumulative_without_storage i kind x h hm hs m hlt
 
-/-! ## what the code does NOT enforce (known findings, proved on concrete instances)
+/-- with storage of meat (after the repair of D10): cumulative meat eaten never exceeds the running
+    slaughter total the pipeline hands over, hence meat is never eaten before it is slaughtered -/
+theorem meat_never_eaten_before_slaughter (i : Inp K) (kind : Kind) (x : Var → K)
+    (h : Feasible (buildLP i kind) x) (hm : i.addMeat = true) (hs : i.storeBetweenYears = true)
+    (hc : ∀ m, m < i.nmonths → at' i.maxCulled m = cum (at' i.slaughtered) m)
+    (m : Nat) (hlt : m < i.nmonths) :
+    cum (meatUse i x) m ≤ cum (at' i.slaughtered) m :=
+  Proofs.LP.meat_never_eaten_before_slaughter i kind x h hm hs hc m hlt
 
-Full statement of the property for meat: `∀ m, cum (meatUse i x) m ≤ cum (at' i.slaughtered) m`.
-With storage between years the code only has `meatUse m ≤ maxCulled m` (the *running* slaughter
-total) per month and the overall total: meat can be eaten before it is slaughtered (D10).
+/-! ## history: D10 (repaired) and what the code still does NOT enforce (D14)
+
+Before the repair `Meat_Eaten_Maximum_m` capped each month's meat by the *running* slaughter total,
+so meat could be eaten before it was slaughtered.  `Proofs.LP.buildLPBefore` is `buildLP` with the
+meat rows as they were (`Proofs.LP.meatRowsBefore`); the theorem keeps the witness and shows that
+today's row is what excludes it.
 In the regimes without storage between years nothing forces the initial stock to be eaten (D14). -/
 
-/-- D10: a feasible point of the code's LP that eats meat before it is slaughtered.
-    The witness has honest data: non-negative slaughter, the monthly cap `maxCulled` is the running
-    slaughter total, `meatSummed` is the total of the horizon.
-    (Statement corrected: the side condition on `maxCulled` was first written `∀ m`, without
-    `m < i.nmonths`.  Past the end of the series `at' i.maxCulled m = 0` while
-    `cum (at' i.slaughtered) m` stays at the horizon total, so with non-negative slaughter that
-    form forces the total to be 0 and only a series with a negative entry could satisfy it.
-    The months of the horizon are what the code reads; the two extra conjuncts make the honesty
-    of the witness part of the statement.) -/
-theorem meat_gap_counterexample :
-    ∃ (i : Inp ℚ) (x : Var → ℚ), 2 ≤ i.nmonths ∧ Feasible (buildLP i .toHumans) x ∧
+/-- D10 before the fix: honest data (non-negative slaughter `[1,1,8]`, `maxCulled` its running
+    total, `meatSummed` its total), a point (eating 1, 2, 0) that is feasible for the LP as it was
+    and eats meat before it is slaughtered; a row of today's `meatRows` fails at it, so it is
+    infeasible for today's LP -/
+theorem meat_gap_counterexample_before_fix :
+    ∃ (i : Inp ℚ) (x : Var → ℚ), 2 ≤ i.nmonths ∧ Feasible (Proofs.LP.buildLPBefore i .toHumans) x ∧
       (∀ s ∈ i.slaughtered, 0 ≤ s) ∧
       (∀ m, m < i.nmonths → at' i.maxCulled m = cum (at' i.slaughtered) m) ∧
       i.meatSummed = cum (at' i.slaughtered) (i.nmonths - 1) ∧
-      ∃ e ∈ physGap i .toHumans x, 0 < e.value :=
-  Proofs.LP.meat_gap_counterexample
+      (∃ e ∈ meatVsSlaughter i x, 0 < e.value) ∧
+      (∃ m, m < i.nmonths ∧ ∃ r ∈ meatRows i m, ¬ r.holds x) ∧
+      ¬ Feasible (buildLP i .toHumans) x :=
+  Proofs.LP.meat_gap_counterexample_before_fix
 
 /-- D14: a feasible point of the code's LP (no storage between years) that leaves stored food uneaten -/
 theorem stored_gap_counterexample :
